@@ -178,7 +178,9 @@ fn oracle_links(case: &[u8], obs: &mut Obs) -> Result<(), String> {
                 if next == 0 || aux == 0 || next < hs as u32 {
                     zero_or_self = true;
                 }
-                let b = if need { m::enc_bytes(enc, |w| m::Verneed { vn_version: 1, vn_cnt: cnt, vn_file: c.val(32) as u32, vn_aux: aux, vn_next: next }.write(w)) } else { m::enc_bytes(enc, |w| m::Verdef { vd_version: 1, vd_flags: 0, vd_ndx: c.below(5) as u16, vd_cnt: cnt, vd_hash: 0, vd_aux: aux, vd_next: next }.write(w)) };
+                // (the revision field is 1 in every file a linker wrote; nothing makes a reader depend on it)
+                let ver: u16 = if c.chance(170) { 1 } else { c.val(16) as u16 };
+                let b = if need { m::enc_bytes(enc, |w| m::Verneed { vn_version: ver, vn_cnt: cnt, vn_file: c.val(32) as u32, vn_aux: aux, vn_next: next }.write(w)) } else { m::enc_bytes(enc, |w| m::Verdef { vd_version: ver, vd_flags: 0, vd_ndx: c.below(5) as u16, vd_cnt: cnt, vd_hash: 0, vd_aux: aux, vd_next: next }.write(w)) };
                 data[at..at + hs].copy_from_slice(&b);
                 // an aux record with adversarial next where the header points
                 let apos = at.saturating_add(aux as usize);
